@@ -927,8 +927,42 @@ class EEA:
             if kd is not None and isinstance(s.target, ast.Name):
                 facts.add(("in", norm(s.target), kd))
         st2 = st2.replace(facts=frozenset(facts))
+        # a dict shared with other tasks iterated live across a suspension point: a key added or removed by the
+        # other task meanwhile makes the next iteration step raise RuntimeError (dictionary changed size)
+        shared = self._shared_dict_iterated(s.iter, fr)
+        if shared is not None and any(has_await_node(b) for b in s.body):
+            self.obligations += 1
+            e = self.merge(e, self._one("builtins.RuntimeError", self.site(fr, s.iter, "live-dict-iteration", f"for ... in {norm(s.iter)[:50]} (suspends inside the loop)"), fr))
         e_l, after = self.loop(s, st2)
         return self.merge(e, e_l), after
+
+    def _shared_dict_iterated(self, it: ast.expr, fr: Frame) -> str | None:
+        """Text of the dict when `it` iterates, without a snapshot, over a dict that is an attribute of an object
+        other tasks reach too (self.<attr>, <param>.<attr>) and that some code in the package resizes."""
+        base = it
+        if isinstance(base, ast.Call) and isinstance(base.func, ast.Attribute) and base.func.attr in ("items", "values", "keys") and not base.args:
+            base = base.func.value
+        if not isinstance(base, ast.Attribute):
+            return None
+        root = base
+        while isinstance(root, ast.Attribute):
+            root = root.value
+        if not (isinstance(root, ast.Name) and root.id in fr.func.params):
+            return None
+        t = self.prog.type_of(fr.module, base) or ""
+        if not t.startswith(("builtins.dict", "dict[")):
+            return None
+        attr = base.attr
+        for m in self.prog.modules.values():
+            for n in ast.walk(m.tree):
+                if isinstance(n, ast.Assign):
+                    if any(isinstance(tg, ast.Subscript) and isinstance(tg.value, ast.Attribute) and tg.value.attr == attr for tg in n.targets):
+                        return norm(base)
+                elif isinstance(n, ast.Call) and isinstance(n.func, ast.Attribute) and n.func.attr in ("pop", "popitem", "clear", "setdefault", "update") and isinstance(n.func.value, ast.Attribute) and n.func.value.attr == attr:
+                    return norm(base)
+                elif isinstance(n, ast.Delete) and any(isinstance(tg, ast.Subscript) and isinstance(tg.value, ast.Attribute) and tg.value.attr == attr for tg in n.targets):
+                    return norm(base)
+        return None
 
     def keys_iter_dict(self, it: ast.expr, fr: Frame) -> str | None:
         """If iterating `it` yields keys of a dict D (D, D.keys(), sorted(D), list(D), reversed(...)): text of D."""
@@ -2147,6 +2181,18 @@ class EEA:
     def _field_load(self, fm: Module, fcall: ast.Call, e: ast.Call, st: St, tainted: bool, depth: int) -> dict:
         fr = st.fr
         out: dict = {}
+        # validate=<function of the repository> (or a list of them): marshmallow calls it with the deserialised value
+        # and turns only ValidationError into a field error - anything else the function raises leaves Schema.load
+        for kw in fcall.keywords:
+            if kw.arg != "validate":
+                continue
+            for ve in (kw.value.elts if isinstance(kw.value, (ast.List, ast.Tuple)) else [kw.value]):
+                vd = self.prog.resolve_expr(fm, ve) if isinstance(ve, (ast.Name, ast.Attribute)) else None
+                if vd is not None and vd.kind == "func":
+                    vf = vd.obj
+                    first = [p for p in vf.positional_params if p not in ("self", "cls")][:1]
+                    sub = self.escapes(Frame(self.I.make_callee(vf, vf.cls), fr.V, (), frozenset(first) if tainted else frozenset()))
+                    out = self.merge(out, self._through(sub, fr))
         d = self.prog.resolve_expr(fm, fcall.func)
         if d is None:
             return out
